@@ -8,6 +8,7 @@ call sequences on symbolic arrays, and two successive particle-Gibbs updates wit
 value in between (with and without clearing the caches, as the run loop / the library tests do).
 """
 import itertools
+import math
 from fractions import Fraction
 
 import numpy as np
@@ -421,8 +422,16 @@ def replay(case):
             f.cache_clear()
         clear_proposal_dist_caches()
         sh = Shadow()
-        if job["kind"] == "arrays":
-            arrs = {k: np.log(np.array([[float(Fraction(vals.get(f"{k}_0_{g}", 1 + g + ord(k) % 3))) for g in range(3)]])) for k in "RQT"}
+        if job["kind"] in ("arrays", "arrays1000"):
+            if job["kind"] == "arrays1000":
+                arrs = {}
+                for k in "RQT":
+                    a = np.zeros((1, 1000))
+                    for g in ((1, 4) if k == "R" else (0, 3) if k == "Q" else (2, 5)):
+                        a[0, g] = math.log(float(Fraction(vals.get(f"{k}_0_{g}", 2 + g))))
+                    arrs[k] = a
+            else:
+                arrs = {k: np.log(np.array([[float(Fraction(vals.get(f"{k}_0_{g}", 1 + g + ord(k) % 3))) for g in range(3)]])) for k in "RQT"}
             sh.install()
             try:
                 for item in case["history"]:
